@@ -86,11 +86,13 @@ def build_pool(ctx):
     lb = api.operators.boundary.sparse.laplace_beltrami
     S = P.spaces
     A0 = P.alias[0]
-    defs = [("id", 0, 0, 0), ("id", 1, 1, 1), ("id", 0, 1, 1), ("id", 1, 0, 0), ("id", 0, 0, 1), ("lb", 0, 0, 0),
+    # every new (trial, test) shapeset pair / operator type costs 5-20 s of JIT: the quick pool avoids Laplace-Beltrami,
+    # the P1 dense operator and the P1 potential
+    defs = [("id", 0, 0, 0), ("id", 1, 1, 1), ("id", 0, 1, 1), ("id", 1, 0, 0), ("id", 0, 0, 1),
             ("id", 2, 2, 2), ("id", 2, 0, 0), ("id", 0, 2, 2), ("id", 0, 0, 2), ("id", 3, 3, 3), ("ida", 0, 0, 0),
             ("sl", 1, 1, 1)]
     if ctx.thorough:
-        defs += [("id", 4, 4, 4), ("id", 3, 4, 4), ("sl", 0, 0, 0), ("id", 1, 1, 0)]
+        defs += [("lb", 0, 0, 0), ("id", 4, 4, 4), ("id", 3, 4, 4), ("sl", 0, 0, 0), ("id", 1, 1, 0)]
     P.ops = []
     for kind, d, r, u in defs:
         if kind == "id":
@@ -124,7 +126,7 @@ def build_pool(ctx):
                 np.array([[1.5, -2.0], [2.5, 0.5], [0.75, 1.25]])]
     pot = api.operators.potential.laplace
     P.pots = []
-    for kind, s, q in [("sl", 1, 0), ("dl", 1, 0), ("sl", 0, 0), ("sl", 1, 1)]:
+    for kind, s, q in [("sl", 1, 0), ("dl", 1, 0), ("sl", 1, 1)] + ([("sl", 0, 0), ("dl", 0, 1)] if ctx.thorough else []):
         obj = (pot.single_layer if kind == "sl" else pot.double_layer)(S[s], P.points[q])
         n = P.ndofs[s]
         M = np.column_stack([np.asarray(obj._evaluator.evaluate(np.eye(n)[:, j])).reshape(-1) for j in range(n)])
